@@ -216,3 +216,61 @@ Proof. reflexivity. Qed.
 (* single PSW bits through the mask operations *)
 Lemma testbit_clr32 x c k : Z.testbit (clr32 x c) k = Z.testbit x k && Z.testbit (not32 c) k.
 Proof. unfold clr32. apply Z.land_spec. Qed.
+
+(* ---- halfword and byte stores to RAM ---- *)
+Definition in_ram_h (a : Z) : Prop := RAMB <= a /\ a + 2 <= RAME /\ a mod 2 = 0.
+Definition in_ram_b (a : Z) : Prop := RAMB <= a /\ a + 1 <= RAME.
+
+Definition sth (m : mach) (a v : Z) : mach :=
+  let off := a - RAMB in let x := w16 v in
+  with_bus m (with_ram (mark_dirty a (mbus m)) (mset (mset (ram (mbus m)) off (w8 (x / 256))) (off + 1) (w8 x))).
+Definition stb (m : mach) (a v : Z) : mach :=
+  with_bus m (with_ram (mark_dirty a (mbus m)) (mset (ram (mbus m)) (a - RAMB) (w8 (w8 v)))).
+
+Lemma wr_half_ram m a v : bus_wf (mbus m) -> in_ram_h a -> wr_half a v m = Ok tt (sth m a v).
+Proof.
+  intros W [H1 [H2 H3]]. unfold wr_half, liftb, bus_write_half, sth.
+  rewrite (land1_zero a H3). cbn [negb]. unfold with_dev.
+  rewrite (get_device_ram a) by (unfold RAME, RAMB in *; lia). cbn [dev_write_half dev_mem].
+  rewrite ram_mark_dirty. destruct W as [_ _ _ [Rb [Rs Rr]]].
+  unfold mem_write_half, mend. rewrite Rr, Rb, Rs. unfold RAMB, RAME in *.
+  replace (a + 1 >=? 7340032 + 1048576) with false by lia.
+  replace (in_vec (ram (mbus m)) (a - 7340032)) with true by (symmetry; apply in_vec_spec; lia).
+  replace (in_vec (ram (mbus m)) (a - 7340032 + 1)) with true by (symmetry; apply in_vec_spec; lia).
+  cbn [andb dev_write_mem set_dev_mem]. reflexivity.
+Qed.
+
+Lemma wr_byte_ram m a v : bus_wf (mbus m) -> in_ram_b a -> wr_byte a v m = Ok tt (stb m a v).
+Proof.
+  intros W [H1 H2]. unfold wr_byte, liftb, bus_write_byte, stb. unfold with_dev.
+  rewrite (get_device_ram a) by (unfold RAME, RAMB in *; lia). cbn [dev_write_byte dev_mem].
+  rewrite ram_mark_dirty. destruct W as [_ _ _ [Rb [Rs Rr]]].
+  unfold mem_write_byte, mend. rewrite Rr, Rb, Rs. unfold RAMB, RAME in *.
+  replace (a >=? 7340032 + 1048576) with false by lia.
+  replace (in_vec (ram (mbus m)) (a - 7340032)) with true by (symmetry; apply in_vec_spec; lia).
+  cbn [dev_write_mem set_dev_mem]. reflexivity.
+Qed.
+
+Lemma ramb_sth m a v a' : RAMB <= a -> RAMB <= a' ->
+  ramb (sth m a v) a' = if a' =? a then w8 (w16 v / 256) else if a' =? a + 1 then w8 (w16 v) else ramb m a'.
+Proof.
+  intros Ha Ha'. unfold ramb, sth. cbv zeta. cbn [mbus with_bus ram with_ram].
+  destruct (a' =? a + 1) eqn:E1.
+  { replace (a' =? a) with false by lia. replace (a' - RAMB) with (a - RAMB + 1) by lia. apply mget_mset_same. }
+  rewrite mget_mset_other by lia.
+  destruct (a' =? a) eqn:E0.
+  { replace (a' - RAMB) with (a - RAMB) by lia. apply mget_mset_same. }
+  rewrite mget_mset_other by lia. reflexivity.
+Qed.
+
+Lemma ramb_stb m a v a' : RAMB <= a -> RAMB <= a' ->
+  ramb (stb m a v) a' = if a' =? a then w8 v else ramb m a'.
+Proof.
+  intros Ha Ha'. unfold ramb, stb. cbn [mbus with_bus ram with_ram].
+  destruct (a' =? a) eqn:E0.
+  { replace (a' - RAMB) with (a - RAMB) by lia. rewrite mget_mset_same. unfold w8. now rewrite Z.mod_mod by lia. }
+  rewrite mget_mset_other by lia. reflexivity.
+Qed.
+
+Lemma mregs_sth m a v : mregs (sth m a v) = mregs m. Proof. reflexivity. Qed.
+Lemma mregs_stb m a v : mregs (stb m a v) = mregs m. Proof. reflexivity. Qed.
